@@ -53,7 +53,9 @@ fn is_store(q: &str) -> bool {
 
 /// One store-phase run. `sent` token-bearing peers (the first 5 answer the lookup, the rest are extra
 /// nodes), one extra token-less lookup responder.
-fn run_store(b: u64, kind: &str, sent: usize, arr: &[i64], seed: u64) -> Value {
+/// `reverse`: the request received LAST is answered FIRST (the arrival sequence of codes stays `arr`), so which node answers
+/// first does not coincide with the order in which the nodes were addressed.
+fn run_store(b: u64, kind: &str, sent: usize, arr: &[i64], seed: u64, reverse: bool) -> Value {
     let mut sim = Sim::new(seed ^ b, NetCfg { lat_min_ms: 10, lat_max_ms: 10, ..Default::default() });
     sim.record = true;
     let regular = sent.min(5);
@@ -69,8 +71,10 @@ fn run_store(b: u64, kind: &str, sent: usize, arr: &[i64], seed: u64) -> Value {
         let q = m.q.clone().unwrap_or_default();
         let mut s = sh.borrow_mut();
         if is_store(&q) {
-            let i = s.next;
+            let recv_i = s.next;
             s.next += 1;
+            // arrival slot of this request's reply
+            let i = if reverse { planned.saturating_sub(1 + recv_i) } else { recv_i };
             let code = s.plan.get(i).cloned().unwrap_or(-1);
             let tok = m.arg_bytes("token").map(|t| t.to_vec()).unwrap_or_default();
             s.stores.push((m.tid.clone(), me.idx, code, tok));
@@ -144,7 +148,7 @@ fn run_store(b: u64, kind: &str, sent: usize, arr: &[i64], seed: u64) -> Value {
         "arr_pending": arrived.iter().filter(|x| x.0 <= done_ns).map(|x| x.1).collect::<Vec<_>>(),
         "result": call.outcome().map(|o| o.name()).unwrap_or("hang".into()),
         "outcomes": call.outcomes.len(), "done": done, "panicked": sim.nodes[c].panicked,
-        "tokens_ok": tokens_ok, "tokenless_addressed": tokenless_addressed})
+        "tokens_ok": tokens_ok, "tokenless_addressed": tokenless_addressed, "reverse": reverse})
 }
 
 /// Second put_mutable placed at a phase of the first one's lifetime.
@@ -188,7 +192,11 @@ fn run_conflict(b: u64, phase: &str, sig_same: bool, seq: i64, cas: i64, seed: u
     sim.run_for(1500);
     let snap = sim.snapshot(c);
     let leak = snap.map(|s| !s.puts.is_empty() || !s.put_senders.is_empty()).unwrap_or(true);
-    json!({"e":"conflict","b":b,"phase":phase,"second":{"sig": if sig_same {"A"} else {"B"},"seq": if sig_same {1} else {seq},"cas":cas},
+    // which items actually went out in store requests
+    let second_value: &[u8] = if sig_same { b"first value" } else { b"second value" };
+    let written = |val: &[u8]| net.seen().iter().any(|s| s.msg.q.as_deref() == Some("put") && s.msg.arg_bytes("v") == Some(val));
+    let (first_written, second_written) = (written(b"first value"), written(second_value));
+    json!({"e":"conflict","b":b,"phase":phase,"first_written":first_written,"second_written":second_written,"second":{"sig": if sig_same {"A"} else {"B"},"seq": if sig_same {1} else {seq},"cas":cas},
         "first_result": c1.outcome().map(|o| o.name()).unwrap_or("hang".into()),
         "second_result": c2.as_ref().and_then(|x| x.outcome().map(|o| o.name())).unwrap_or("hang".into()),
         "first_outcomes": c1.outcomes.len(), "second_outcomes": c2.as_ref().map(|x| x.outcomes.len()).unwrap_or(0),
@@ -206,7 +214,11 @@ pub fn run(args: &Args) -> i32 {
         for line in std::fs::read_to_string(path).expect("runs").lines() {
             if let Ok(r) = serde_json::from_str::<Value>(line) {
                 let arr: Vec<i64> = r["arr"].as_array().map(|a| a.iter().map(|x| x.as_i64().unwrap_or(0)).collect()).unwrap_or_default();
-                let ev = run_store(b, r["kind"].as_str().unwrap_or("imm"), r["sent"].as_u64().unwrap_or(1) as usize, &arr, seed);
+                let ev = run_store(b, r["kind"].as_str().unwrap_or("imm"), r["sent"].as_u64().unwrap_or(1) as usize, &arr, seed, false);
+                if r["sent"].as_u64().unwrap_or(1) >= 2 && !arr.is_empty() {
+                    // the same run with the replies arriving in the opposite order of addressing
+                    out.line(&run_store(b, r["kind"].as_str().unwrap_or("imm"), r["sent"].as_u64().unwrap_or(1) as usize, &arr, seed, true));
+                }
                 if arr.len() >= 2 {
                     distinct.insert(format!("{}{:?}", r["kind"], arr));
                 }
@@ -234,7 +246,7 @@ pub fn run(args: &Args) -> i32 {
                         "minority301" => (0..n).map(|i| if i < n / 2 - 1 { 301 } else { 0 }).collect(),
                         _ => (0..n).map(|i| if i < 256.min(n) { 0 } else { 203 }).collect(),
                     };
-                    let ev = run_store(b, kind, n, &arr, seed);
+                    let ev = run_store(b, kind, n, &arr, seed, b % 2 == 1);
                     distinct.insert(format!("{kind}{n}{pat}"));
                     out.line(&ev);
                     b += 1;
